@@ -29,6 +29,23 @@ CLAIMS = {
         note='Trusts: CPython ast; the idiom table for guards (all(e), numpy.all(e), e.all(); shifted-slice and numpy.diff adjacent comparisons); role names of index arrays '
              '(colidx/indices/cols vs rowptr/indptr). Unclassifiable constructs in the anchor give ANALYSIS-ERROR.',
         design='DESIGN.md section 2, C15'),
+    'C13': dict(
+        technique='static analysis: symtable name resolution, per-path guard facts in front of the yield of the specification parser, taint of the raw specification, emitted-check presence (ast)',
+        text='Decides the specification handling behind replace/linearize/derivative: every name in the anchored mechanisms resolves; all documented spellings are accepted; on every enumerated path '
+             'to the yield of _argument_to_array the key type, membership, shape and dtype were verified by ValueError guards (or the replacement is built from the key); run-time ingestion emits '
+             'asarray + a shape test; the raw specification is consumed only through the parser; announced argument tables are computed from the parsed pairs. These are necessary for "all spellings '
+             'equivalent, wrong shape/dtype rejected"; that replace/linearize/factor commute with evaluation numerically is NOT decided.',
+        note='Trusts: CPython ast/symtable; the parameter and local names of _argument_to_array as read today (the rule re-derives them from the signature and the yield).',
+        design='DESIGN.md section 2, C13'),
+    'C17': dict(
+        technique='static analysis: typed feed sequences per hasher over enumerated paths (prefix-freeness), determinism taint, branch-component and state-coverage tables, interning key agreement (ast)',
+        text='Decides the encoding discipline of nutils_hash and every __nutils_hash__/hashlib user: no hash()/id()/unsorted dict or set iteration feeds a hasher; along every path the feeds of a hasher '
+             'form a prefix-free byte encoding with the type tag first; each type branch of nutils_hash feeds the components that distinguish values of that type; hand-written solver hashes cover all '
+             'constructor state with unique tags; Immutable/Singleton/DataClass/arraydata canonicalise and intern through one key; the disk-cache key and generated constant names use the full hash. '
+             'An encoding that is not injective makes two values share a hash for certain, so each clause is necessary; SHA-1 collision resistance and user-defined hashes are NOT decided.',
+        note='Trusts: CPython ast; the feed typing table (digest = nutils_hash()/.digest(), delimited = literal NUL terminator, raw, varnum); SHA-1 as a random oracle for fixed-length digests. '
+             'Known findings F6, F9a, F9b are listed in known_findings.json.',
+        design='DESIGN.md section 2, C17'),
 }
 
 NOT_APPLICABLE = {
